@@ -61,8 +61,24 @@ def lin_add(a, b, sb=1):
             d[at] = nc
         else:
             d.pop(at, None)
+    const = a[1] + sb * b[1]
+    # an exact quotient multiplied back by (a multiple of) its divisor is the dividend again:
+    # k * ((last - first) / k) == last - first   (pointer differences in element units)
+    for at in [x for x in d if x[0] == 'divx']:
+        c = d.get(at)
+        if c is not None and c % at[2] == 0:
+            del d[at]
+            m = c // at[2]
+            inner = at[1]
+            const += m * inner[1]
+            for at2, c2 in inner[2]:
+                nc = d.get(at2, 0) + m * c2
+                if nc:
+                    d[at2] = nc
+                else:
+                    d.pop(at2, None)
     items = sorted(d.items(), key=lambda kv: _akey(kv[0]))
-    return ('L', a[1] + sb * b[1], tuple(items))
+    return ('L', const, tuple(items))
 
 
 def lin_sub(a, b):
@@ -72,7 +88,10 @@ def lin_sub(a, b):
 def lin_scale(a, k):
     if k == 0:
         return ZERO
-    return ('L', a[1] * k, tuple((at, c * k) for at, c in a[2]))
+    r = ('L', a[1] * k, tuple((at, c * k) for at, c in a[2]))
+    if any(at[0] == 'divx' for at, c in r[2]):
+        r = lin_add(r, ZERO)
+    return r
 
 
 def lin_div_exact(a, k):
@@ -349,7 +368,7 @@ class Layout(object):
 # ------------------------------------------------------------------------------------------
 class Ev(object):
     __slots__ = ('kind', 'site', 'callee', 'args', 'ret', 'addr', 'val', 'field', 'cond', 'taken',
-                 'stack', 'ins', 'fn', 'expanded', 'may_throw', 'argtys')
+                 'stack', 'ins', 'fn', 'expanded', 'may_throw', 'argtys', 'old')
 
     def __init__(self, kind, **kw):
         self.kind = kind
@@ -368,6 +387,7 @@ class Ev(object):
         self.expanded = False
         self.may_throw = False
         self.argtys = None
+        self.old = None
         for k, v in kw.items():
             setattr(self, k, v)
 
@@ -901,10 +921,11 @@ class Engine(object):
         elif op == 'store':
             addr = self.val(st, ins.b, f)
             v = self.val(st, ins.a, f)
+            tag = self.field_tag.get(addr)
+            oldv = self.load(st, addr) if (rules and tag is not None) else None
             st.mem[addr] = v
             st.stores = st.stores + ((addr, v),)
-            tag = self.field_tag.get(addr)
-            ev = Ev('store', addr=addr, val=v, field=tag, ins=ins, fn=f, site=(f.name, ins.line))
+            ev = Ev('store', addr=addr, val=v, field=tag, ins=ins, fn=f, site=(f.name, ins.line), old=oldv)
             self.emit(st, ev, rules, f)
         elif op == 'icmp':
             a = self.val(st, ins.a, f)
@@ -943,6 +964,8 @@ class Engine(object):
                     r = L(ca // k)
                 elif 'exact' in (ins.flags or '') or op in ('sdiv',):
                     r = lin_div_exact(a, k)
+                    if r is None and 'exact' in (ins.flags or ''):
+                        r = atom(('divx', a, k))
             env[ins.res] = r if r is not None else atom((op, a, b))
         elif op == 'xor':
             a = self.val(st, ins.a, f)
@@ -1229,6 +1252,8 @@ class Engine(object):
             if ev.cond is not None:
                 e2.cond = subst(ev.cond, rep, memo)
             if ev.kind == 'store':
+                if rules and e2.field is not None:
+                    e2.old = self.load(st, e2.addr)
                 st.mem[e2.addr] = e2.val
                 st.stores = st.stores + ((e2.addr, e2.val),)
             elif ev.kind == 'throw':
